@@ -59,7 +59,13 @@ def draw_knobs(rng, recipe, space):
             if n in excluded_knobs(op):
                 continue
             if rng.random() < 0.7:
-                kn[n] = rng.choice(space[n])
+                choices = list(space[n])
+                nps = [x for x in (op.get("src_nparts") or []) if isinstance(x, int)]
+                if nps and n in ("npartitions_hint", "sort_npartitions", "split_every", "max_branch"):
+                    # values on both sides of (and exactly at) the thresholds created by the input partition counts
+                    around = sorted({v for x in nps for v in (x - 1, x, x + 1) if v >= (2 if n in ("split_every", "max_branch") else 1)})
+                    choices = choices + around + around
+                kn[n] = rng.choice(choices)
         out[str(op["id"])] = kn
     return out
 
@@ -148,8 +154,10 @@ def _execute(spec, ses):
     refw = reference_world()
     base = W.build(recipe, use_knobs=False)
     refs = {}
+    refs_parts = {}
     for t in recipe["targets"]:
         refs[t] = ses.compute(base[t], refw, fuse=True, monitor=False, det=det.get(str(t), {}))
+        refs_parts[t] = ses.compute_parts(base[t], refw, fuse=True, det=det.get(str(t), {}))
         _plan_probe(base[t], True, probes)
     nontrivial = False
     for ai, alt in enumerate(spec["alts"]):
@@ -191,6 +199,19 @@ def _execute(spec, ses):
                 else:
                     return _done({"verdict": "violation", "oracle": "knob_failure", "signature": got.cls + ":" + exc_signature(got.exc),
                                   "detail": got.detail, "alt": ai, "target": t}, ses, counters, spec, probes)
+                # the multi-partition route (no repartition(1) collapse): what persist / dask.compute(q) users get
+                rp = refs_parts[t]
+                if rp.cls == "ok":
+                    gp = ses.compute_parts(pool[t], world, fuse=alt["fuse"], det=d)
+                    if gp.cls == "ok":
+                        eq, why = obs_equal(rp.obs, gp.obs)
+                        counters["compared"] += 1
+                        if not eq:
+                            return _done({"verdict": "violation", "oracle": "knob_divergence", "signature": "parts:" + _sig(r2, alt, why),
+                                          "detail": "partition-wise execution: " + why, "alt": ai, "target": t}, ses, counters, spec, probes)
+                    elif gp.cls not in ("refusal",):
+                        return _done({"verdict": "violation", "oracle": "knob_failure", "signature": "parts:" + gp.cls + ":" + (exc_signature(gp.exc) if gp.exc else ""),
+                                      "detail": gp.detail, "alt": ai, "target": t}, ses, counters, spec, probes)
     return _done({"verdict": "ok", "nontrivial": nontrivial}, ses, counters, spec, probes)
 
 
